@@ -120,6 +120,10 @@ def run(ctx):
     results = []
     scenarios = [e2e.gen_scenario(ctx.rng) for _ in range(ctx.n(120, 3000))]
     for res in e2e.run_many(scenarios, ctx.seed, workers=12):
+        if res.get("hang"):
+            # termination is C06's clause; here the histories are simply not available
+            ctx.note("a scenario did not terminate (see C06)")
+            continue
         if "harness_error" in res:
             ctx.diff(["scenario", res["script"]], res["harness_error"], "n/a", "scenario harness failed")
             continue
